@@ -25,6 +25,9 @@ Transforms (each is exact for Python/NumPy semantics, including floating point):
   T13 assert-inject always-true isinstance assertions on the parameters, a dummy local that is deleted again
   T14 log-inject    logging.getLogger(__name__).debug(...) at the function start
   T15 if-true       function body -> if True: body
+  T16 listcomp-loop v = [e for t in it if c] -> v = []; for t in it: if c: v.append(e)
+  T17 ifexp-stmt    v = a if c else b -> if c: v = a else: v = b
+  T18 aug-plain     n += e -> n = n + e  for visibly integer counters
 """
 from __future__ import annotations
 
@@ -331,6 +334,85 @@ class IfTrueWrap(_BodyRewriter):
         return [ast.If(test=ast.Constant(value=True), body=body, orelse=[])]
 
 
+class _StmtExpander(ast.NodeTransformer):
+    """rewrite statements inside function bodies: expand(stmt) -> list of statements or None"""
+
+    def _block(self, body):
+        out = []
+        for st in body:
+            r = self.expand(st)
+            if r is None:
+                out.append(st)
+            else:
+                out.extend(r)
+        return out
+
+    def generic_visit(self, node):
+        super().generic_visit(node)
+        for f in ("body", "orelse", "finalbody"):
+            b = getattr(node, f, None)
+            if isinstance(b, list) and b and isinstance(b[0], ast.stmt) and not isinstance(node, (ast.Module, ast.ClassDef)):
+                setattr(node, f, self._block(b))
+        return node
+
+
+class ListCompToLoop(_StmtExpander):
+    """v = [elem for t in it if c]  ->  v = []; for t in it: if c: v.append(elem)
+    (single generator, simple Name target that the element / iterable / conditions do not mention)"""
+
+    def expand(self, st):
+        if not (isinstance(st, ast.Assign) and len(st.targets) == 1 and isinstance(st.targets[0], ast.Name) and isinstance(st.value, ast.ListComp) and len(st.value.generators) == 1):
+            return None
+        g = st.value.generators[0]
+        if g.is_async:
+            return None
+        name = st.targets[0].id
+        used = {n.id for n in ast.walk(st.value) if isinstance(n, ast.Name)}
+        if name in used:
+            return None
+        app = ast.Expr(value=ast.Call(func=ast.Attribute(value=ast.Name(id=name, ctx=ast.Load()), attr="append", ctx=ast.Load()), args=[st.value.elt], keywords=[]))
+        inner = [app]
+        for c in reversed(g.ifs):
+            inner = [ast.If(test=c, body=inner, orelse=[])]
+        loop = ast.For(target=g.target, iter=g.iter, body=inner, orelse=[])
+        init = ast.Assign(targets=[ast.Name(id=name, ctx=ast.Store())], value=ast.List(elts=[], ctx=ast.Load()), lineno=st.lineno)
+        return [init, loop]
+
+
+class IfExpToStmt(_StmtExpander):
+    """v = a if c else b  ->  if c: v = a else: v = b      (simple Name target)"""
+
+    def expand(self, st):
+        if not (isinstance(st, ast.Assign) and len(st.targets) == 1 and isinstance(st.targets[0], ast.Name) and isinstance(st.value, ast.IfExp)):
+            return None
+        t = st.targets[0].id
+        mk = lambda v: ast.Assign(targets=[ast.Name(id=t, ctx=ast.Store())], value=v, lineno=st.lineno)  # noqa: E731
+        return [ast.If(test=st.value.test, body=[mk(st.value.body)], orelse=[mk(st.value.orelse)])]
+
+
+class AugToPlain(_StmtExpander):
+    """n += e -> n = n + e   only for names that are visibly integer counters (initialised with an int literal in the same
+    function and never subscripted): in-place and rebinding agree for immutable numbers"""
+
+    def visit_FunctionDef(self, node):
+        ints = set()
+        for n in ast.walk(node):
+            if isinstance(n, ast.Assign) and len(n.targets) == 1 and isinstance(n.targets[0], ast.Name) and isinstance(n.value, ast.Constant) and isinstance(n.value.value, int) and not isinstance(n.value.value, bool):
+                ints.add(n.targets[0].id)
+        for n in ast.walk(node):
+            if isinstance(n, ast.Subscript) and isinstance(n.value, ast.Name):
+                ints.discard(n.value.id)
+            if isinstance(n, ast.Assign) and len(n.targets) == 1 and isinstance(n.targets[0], ast.Name) and not (isinstance(n.value, ast.Constant) and isinstance(n.value.value, int)) and not isinstance(n.value, ast.BinOp):
+                ints.discard(n.targets[0].id)
+        self._ints = ints
+        return self.generic_visit(node)
+
+    def expand(self, st):
+        if isinstance(st, ast.AugAssign) and isinstance(st.target, ast.Name) and st.target.id in getattr(self, "_ints", ()) and isinstance(st.op, (ast.Add, ast.Sub)):
+            return [ast.Assign(targets=[ast.Name(id=st.target.id, ctx=ast.Store())], value=ast.BinOp(left=ast.Name(id=st.target.id, ctx=ast.Load()), op=st.op, right=st.value), lineno=st.lineno)]
+        return None
+
+
 TRANSFORMS = {
     "T0-reprint": None,
     "T1-mult-swap": MultSwap,
@@ -348,6 +430,9 @@ TRANSFORMS = {
     "T13-assert-inject": AssertInject,
     "T14-log-inject": LogInject,
     "T15-if-true": IfTrueWrap,
+    "T16-listcomp-loop": ListCompToLoop,
+    "T17-ifexp-stmt": IfExpToStmt,
+    "T18-aug-plain": AugToPlain,
 }
 
 
